@@ -312,7 +312,9 @@ func jsonEqual(a, b *jnode, path string) (bool, string) {
 			return false, path + ": number differs"
 		}
 	case jStr:
-		if !bytes.Equal(a.str, b.str) {
+		// bytes that are not valid UTF-8 cannot be carried by JSON text; the
+		// encoder writes U+FFFD for each (fidelity of that is C12's subject)
+		if !bytes.Equal(a.str, b.str) && !bytes.Equal(fffd(a.str), fffd(b.str)) {
 			return false, fmt.Sprintf("%s: string differs (len %d vs %d)", path, len(a.str), len(b.str))
 		}
 	case jArr:
@@ -363,3 +365,21 @@ func withMember(n *jnode, key string, v *jnode) *jnode {
 }
 
 func jstr(b []byte) *jnode { return &jnode{kind: jStr, str: b} }
+
+// fffd replaces every byte that is not part of a valid UTF-8 sequence by U+FFFD.
+func fffd(b []byte) []byte {
+	if utf8.Valid(b) {
+		return b
+	}
+	out := make([]byte, 0, len(b)+8)
+	for len(b) > 0 {
+		r, size := utf8.DecodeRune(b)
+		if r == utf8.RuneError && size == 1 {
+			out = append(out, "\uFFFD"...)
+		} else {
+			out = append(out, b[:size]...)
+		}
+		b = b[size:]
+	}
+	return out
+}
